@@ -579,6 +579,8 @@ def make_os_shim(fs, real_os):
         def __getattr__(self, name):
             if name in pure_path:
                 return getattr(posixpath, name)
+            if not hasattr(posixpath, name):
+                raise AttributeError(name)  # introspection (hasattr / getattr with default) behaves as on the real module
             # anything else would look at the real file system
             raise SimfsUnsupported(f"os.path.{name}")
 
@@ -638,7 +640,7 @@ def make_os_shim(fs, real_os):
         def __getattr__(self, name):
             # constants and functions that never look at the file system; everything else that
             # is not modelled below is a harness limitation (it must not reach the real disk)
-            if name in pure_os or name.isupper():
+            if name in pure_os or name.isupper() or not hasattr(real_os, name):
                 return getattr(real_os, name)
             raise SimfsUnsupported(f"os.{name}")
 
@@ -717,6 +719,10 @@ def make_os_shim(fs, real_os):
 def make_shutil_shim(fs):
     class _ShutilShim:
         def __getattr__(self, name):
+            import shutil  # pylint: disable=import-outside-toplevel
+
+            if not hasattr(shutil, name):
+                raise AttributeError(name)
             raise SimfsUnsupported(f"shutil.{name}")
 
         @staticmethod
@@ -779,6 +785,10 @@ def make_tempfile_shim(fs):
 
     class _TempfileShim:
         def __getattr__(self, name):
+            import tempfile  # pylint: disable=import-outside-toplevel
+
+            if not hasattr(tempfile, name):
+                raise AttributeError(name)
             raise SimfsUnsupported(f"tempfile.{name}")
 
         @staticmethod
@@ -840,10 +850,13 @@ class _Tripwire:
     """Stands in for a file-system related module or function this model does not
     cover: using it is reported as a harness limitation, never as a violation."""
 
-    def __init__(self, what):
+    def __init__(self, what, real=None):
         self.__dict__["_what"] = what
+        self.__dict__["_real"] = real
 
     def __getattr__(self, name):
+        if self._real is not None and not hasattr(self._real, name):
+            raise AttributeError(name)  # introspection behaves as on the real object
         raise SimfsUnsupported(f"{self._what}.{name}")
 
     def __call__(self, *a, **k):
@@ -895,13 +908,13 @@ def install_seams(mod, fs):
         elif val is _time:
             put(name, _DeterministicNames(fs, _time, "time"))
         elif val in (_glob, _io, pathlib):
-            put(name, _Tripwire(getattr(val, "__name__", name)))
+            put(name, _Tripwire(getattr(val, "__name__", name), val))
         elif val is builtins.open or val is _io.open:
             put(name, fs.open)
         elif callable(val) and getattr(val, "__module__", None) in ("posix", "nt", "os", "shutil", "tempfile", "glob", "genericpath", "posixpath"):
             fn = getattr(os_shim, getattr(val, "__name__", ""), None) if getattr(val, "__module__", None) in ("posix", "nt", "os") else None
             put(name, fn if callable(fn) and getattr(val, "__name__", "") in ("replace", "rename", "remove", "unlink", "makedirs", "mkdir", "listdir", "scandir", "getcwd", "chdir", "fsync", "fdatasync", "access", "getpid", "fdopen", "close", "fspath")
-                else _Tripwire(f"{val.__module__}.{getattr(val, '__name__', name)}"))
+                else _Tripwire(f"{val.__module__}.{getattr(val, '__name__', name)}", val))
     return saved, missing
 
 
